@@ -39,6 +39,13 @@ chk("C19", "exploration",
     "Shadow reader defines the format; session/cache convenience calls are covered by the C05/C06/C07 monitors' data paths, not here.",
     "runtime monitors: round-trip oracle + strict shadow reader + ASan/UBSan, libFuzzer", "DESIGN.md section 4 / C19", "ser_mon")
 
+chk("C01", "exploration",
+    "Abstract CGI-level requests are encoded independently for HTTP/1.0+1.1, SCGI and FastCGI and sent to a real cppcms::service (sync and async echo applications) while a link-time readv() shim imposes read schedules: "
+    "every single split point of the header block, random multi-splits, 1-byte reads; the echo must equal a reference CGI mapping, be identical across segmentations and across the three front-ends; HTTP keep-alive and FastCGI "
+    "KEEP_CONN sequences of 2..6 pipelined requests are checked request by request. ASan/UBSan on the server.",
+    "Requests come from the generated grammar (balanced quotes/parentheses, no NUL); loopback TCP only; the readv shim stands for arbitrary TCP segmentation.",
+    "runtime monitor: reference CGI mapping + metamorphic relations (segmentation, front-end) with server-side read-schedule injection", "DESIGN.md section 4 / C01", "vsrv")
+
 chk("C04", "exploration",
     "Generated rule sets (xhtml/html, tag kinds, boolean/integer/regex/uri/relative_uri/absolute_uri properties, comments and numeric entities on/off, six encodings) x grammar-generated and mutated inputs x "
     "{remove, escape} x replacement char: validate(filter(x)) holds, filter is idempotent, valid input is returned unchanged, accepted input is well-formed in the declared encoding, and an independent "
@@ -131,6 +138,7 @@ ENGINES = [
     dict(name="sess_hist", path="harness/sess_hist.cpp", serves_properties=["C06"], kind_free_text="in-process session history monitor with browser/adversary simulation and model"),
     dict(name="fstore_mon", path="harness/fstore_mon.cpp", serves_properties=["C18"], kind_free_text="crash-point enumerator for session_file_storage with write()/open() shims"),
     dict(name="aio_mon", path="harness/aio_mon.cpp", serves_properties=["C17"], kind_free_text="multi-threaded event-loop / worker-pool monitor (tsan, asan, plain flavors)"),
+    dict(name="vsrv", path="harness/vsrv.cpp", serves_properties=["C01", "C02", "C03", "C12", "C13"], kind_free_text="real cppcms::service (http+scgi+fastcgi) with monitor apps, readv/writev schedule shims, event log; python protocol clients in vlib/proto.py, vlib/srv.py"),
     dict(name="codec_mon", path="harness/codec_mon.cpp", serves_properties=["C15"], kind_free_text="in-process monitor, inverse-function oracles"),
     dict(name="crypto_mon", path="harness/crypto_mon.cpp", serves_properties=["C16"], kind_free_text="in-process differential monitor against libgcrypt"),
     dict(name="ser_mon", path="harness/ser_mon.cpp", serves_properties=["C19"], kind_free_text="in-process monitor, shadow reader; also libFuzzer target ser_fuzz"),
